@@ -296,6 +296,30 @@ theorem validateEthereumAddress_spec (ck : List Char → Bool) (a : List Char) :
   · by_cases h1 : a.length = 42 <;> by_cases h2 : a.take 2 = ['0', 'x'] <;>
       by_cases h3 : (a.drop 2).all isHexChar = true <;> by_cases h4 : ck a = true <;> simp [h0, h1, h2, h3, h4]
 
+/-- `fxtypes.ParseAddress` is total and classifies exactly: the bech32 form when the text is bech32, else the EVM form when it
+is a checksummed `0x` + 40 hex digits, else an error — for every input text and every behaviour of the two dependency checks -/
+theorem parseAddress_spec (b ck : List Char → Bool) (a : List Char) :
+    (parseAddress b ck a = .ok false ↔ b a = true) ∧
+    (parseAddress b ck a = .ok true ↔ b a = false ∧ ethFormat a ∧ ck a = true) ∧
+    ((∃ e, parseAddress b ck a = .error e) ↔ b a = false ∧ ¬ (ethFormat a ∧ ck a = true)) := by
+  have hv := validateEthereumAddress_spec ck a
+  unfold parseAddress
+  cases hb : b a <;> simp only [Bool.false_eq_true, if_false, if_true]
+  · cases hr : validateEthereumAddress ck a with
+    | ok u =>
+      cases u
+      have := hv.1 hr
+      simp [this]
+    | error e =>
+      have hne : ¬ (ethFormat a ∧ ck a = true) := by
+        intro h; rw [hv.2 h] at hr; cases hr
+      simp [hne]
+  · simp
+
+example : parseAddress (fun _ => false) (fun _ => true) ('0' :: 'x' :: List.replicate 40 'a') = .ok true := by rfl
+example : parseAddress (fun _ => true) (fun _ => true) "fx1abc".toList = .ok false := by rfl
+example : ∃ e, parseAddress (fun _ => false) (fun _ => true) "0x12".toList = .error e := ⟨_, rfl⟩
+
 /-- whatever `ParseFxTarget` classifies as an IBC target satisfies `IBCValidate`: port `transfer`, a well-formed channel
 identifier, a non-blank prefix — for every input string -/
 theorem parseFxTarget_ibc_valid (s : List Char) (h : (parseFxTarget s).isIBC = true) :
